@@ -1403,6 +1403,7 @@ func (vx *Vaxis) openTty(tgts []*os.File) error {
 	go func() {
 		defer func() {
 			if err := recover(); err != nil {
+				vx.drainParser()
 				vx.Close()
 				panic(err)
 			}
@@ -1421,12 +1422,26 @@ func (vx *Vaxis) openTty(tgts []*os.File) error {
 				atomicStore(&vx.resize, true)
 				vx.PostEventBlocking(Redraw{})
 			case <-vx.chSigKill:
+				vx.drainParser()
 				vx.Close()
 				return
 			}
 		}
 	}()
 	return nil
+}
+
+// drainParser discards everything the parser still delivers. The input
+// goroutine is the only consumer of the parser's output: when it is the one
+// calling Close (kill signal, panic recovery) nobody would drain the channel
+// while Suspend waits for the parser to stop, and a parser blocked on the full
+// channel would never notice the close request
+func (vx *Vaxis) drainParser() {
+	parser := vx.parser
+	go func() {
+		for range parser.Next() {
+		}
+	}()
 }
 
 // Resume returns the application to it's fullscreen state, re-enters raw mode,
